@@ -763,7 +763,9 @@ func (s *recordingSpan) AddLink(link trace.Link) {
 		return
 	}
 
-	l := Link{SpanContext: link.SpanContext, Attributes: link.Attributes}
+	// Copy the attributes: the caller may re-use its slice, what it does with
+	// it afterwards must not show up in the recorded link.
+	l := Link{SpanContext: link.SpanContext, Attributes: slices.Clone(link.Attributes)}
 
 	// Discard attributes over limit.
 	limit := s.tracer.provider.spanLimits.AttributePerLinkCountLimit
